@@ -951,6 +951,7 @@ fn gen_c08(seed: u64, index: u64, tier: Tier) -> ResolvePlan {
     knobs.faults.insert("upstream.fault".into(), *r.pick(&[0.05, 0.2, 0.5, 1.0]));
     knobs.faults.insert("udp.fate".into(), *r.pick(&[0.0, 0.05, 0.3]));
     knobs.faults.insert("tcp.connect".into(), *r.pick(&[0.0, 0.1, 0.5]));
+    knobs.faults.insert("udp.bind_error".into(), *r.pick(&[0.0, 0.0, 0.05, 0.3]));
     let max_extra = *r.pick(&[0u64, 49, 499, 6999, 69_999]);
     knobs.params.insert("net.latency.max_extra_ms".into(), max_extra);
     knobs.faults.insert("udp.delay".into(), *r.pick(&[0.0, 0.1, 0.7]));
